@@ -1,0 +1,54 @@
+//go:build verif
+
+package dkg
+
+import (
+	"github.com/ipfs/go-log/v2"
+
+	"github.com/keep-network/keep-core/pkg/net"
+	"github.com/keep-network/keep-core/pkg/protocol/group"
+	"github.com/keep-network/keep-core/pkg/protocol/state"
+)
+
+// Verification hooks for property C13 (thin wrappers, no behaviour of their
+// own).
+
+// VerifC13NewResultSigningState builds the first state of the result
+// publication the way Publish does.
+func VerifC13NewResultSigningState(
+	logger log.StandardLogger,
+	memberIndex group.MemberIndex,
+	channel net.BroadcastChannel,
+	membershipValidator *group.MembershipValidator,
+	sessionID string,
+	resultSigner ResultSigner,
+	resultSubmitter ResultSubmitter,
+	result *Result,
+) state.AsyncState {
+	return &resultSigningState{
+		BaseAsyncState:  state.NewBaseAsyncState(),
+		channel:         channel,
+		resultSigner:    resultSigner,
+		resultSubmitter: resultSubmitter,
+		member: newSigningMember(
+			logger,
+			memberIndex,
+			result.Group,
+			membershipValidator,
+			sessionID,
+		),
+		result: result,
+	}
+}
+
+// VerifC13Signatures returns the valid signatures held by the signatures
+// verification state or the result submission state, nil for any other state.
+func VerifC13Signatures(st state.AsyncState) map[group.MemberIndex][]byte {
+	switch s := st.(type) {
+	case *signaturesVerificationState:
+		return s.validSignatures
+	case *resultSubmissionState:
+		return s.signatures
+	}
+	return nil
+}
